@@ -514,7 +514,11 @@ func (c *Coordinator) getFreeShard(shards []*shardInfo, sp space) *shardInfo {
 		return nil
 	}
 
-	cr, _ := wr.NewChooser(cs...)
+	cr, err := wr.NewChooser(cs...)
+	if err != nil {
+		// the free space of the shards adds up to more than the chooser can weigh (a limit near MaxInt64)
+		return cs[0].Item.(*shardInfo)
+	}
 	return cr.Pick().(*shardInfo)
 }
 
